@@ -99,8 +99,11 @@ def make_spec(case):
             rng.choice(["nl", "both", "lin"])), forms=("nlc", "dict_ineq",
                                                        "dict_eq"),
             fun_none=0.1, maxfev=(20, 100))
-    return gen.general(rng, forms=("nlc", "dict_ineq", "dict_eq"),
+    spec = gen.general(rng, forms=("nlc", "dict_ineq", "dict_eq"),
                        fun_none=0.15, maxfev=(20, 120))
+    if spec["con_kind"] != "none" and rng.random() < 0.15:
+        gen.mixmag(rng, spec)
+    return spec
 
 
 def run_case(case):
